@@ -50,7 +50,7 @@ def calls : List (String × List String) := [
   ("append_column", ["DataType.get_dtype", "dt_arr.append", "np.dtype", "column.tolist", "np.array", "self._h5group.group['data']", "row_list.append", "new_da.append", "np.ascontiguousarray", "self._h5group.create_dataset", "newds.write_data", "del grp['data.new']", "del grp['data']", "grp.move"]),
   ("append_rows", ["li_data.append", "np.array", "self.append"]),
   ("write_column", ["self._find_name_by_idx", "np.array", "self._h5group.group['data']", "stored.copy", "self._python_scalar", "self.write_rows", "self._write_data"]),
-  ("read_columns", ["name.append", "self._read_data", "self._read_data", "gcol.append", "np.array", "self._read_data"]),
+  ("read_columns", ["name.append", "self._read_data", "self._read_data", "col_types.add", "gcol.append", "np.array", "np.array", "self._read_data"]),
   ("write_rows", ["self._write_data", "cr_list.append", "self._write_data"]),
   ("read_rows", []),
   ("write_cell", ["self.read_rows", "self._python_scalar", "self._write_data", "self.read_rows", "self._python_scalar", "self._write_data"]),
